@@ -29,8 +29,23 @@ def run_chunks(ctx, mode, rows, name, chunk, par, timeout):
         paths.append(p)
     out = []
 
+    def limit():
+        # a non-terminating parse allocates without bound: cap the address space of the harness process
+        import resource
+        resource.setrlimit(resource.RLIMIT_AS, (8 << 30, 8 << 30))
+
     def one(p):
-        return vlib.ndjson(vlib.run_bin("vh_parse", [mode, p], timeout=timeout).stdout)
+        import subprocess
+        try:
+            r = subprocess.run([vlib.bin_path("vh_parse"), mode, p], stdout=subprocess.PIPE, stderr=subprocess.PIPE,
+                               text=True, errors="replace", timeout=timeout, preexec_fn=limit)
+        except subprocess.TimeoutExpired as ex:
+            raise vlib.ToolError("vh_parse %s timed out after %ss" % (mode, timeout)) from ex
+        objs = vlib.ndjson(r.stdout)
+        if r.returncode != 0:
+            # the process died (abort, memory limit): an observation about the code under test, not a tool error
+            objs.append({"fail": "died", "rc": r.returncode, "chunk": p, "stderr": r.stderr[-400:]})
+        return objs
 
     with concurrent.futures.ThreadPoolExecutor(max_workers=par) as ex:
         for objs in ex.map(one, paths):
